@@ -9,7 +9,7 @@
 (* the penalties -- theorem ScoreLinear is model-checked in MC_Kemeny) and *)
 (* gives one total verdict per record.                                     *)
 (***************************************************************************)
-EXTENDS Kemeny, Scheme, Json, IOUtils
+EXTENDS KemenyAlgo, Scheme, Json, IOUtils
 
 VARIABLES i, verdict
 
@@ -45,6 +45,10 @@ Verdict(rec) ==
                      \/ rec.vals[k][1] # ScoreLin(cnt, Sch[k][1], Sch[k][2])
                  THEN <<"viol", "C01:score">>
             ELSE IF rec.hascnt = 1 /\ ~CountersAgree(cnt, rec.s1, rec.s2) THEN <<"drift", "counters">>
+            \* all twelve raw counters against the transcription of the O(n log n) algorithm (KemenyAlgo.tla)
+            \* (on one record in four of the exhaustive small grid, on every larger case)
+            ELSE IF rec.hascnt = 1 /\ (rec.id % 4 = 0 \/ Cardinality(Dom(c)) >= 5) /\ <<rec.s1, rec.s2>> # CostByDataset(c, D)
+                 THEN <<"drift", "counters-differ-from-the-transcribed-algorithm">>
             ELSE <<"ok", "score">>
 
 Init == i = 0 /\ verdict = <<"init", "">>
